@@ -18,7 +18,7 @@ ASSUMPTIONS = ["bound configurations are generated around an existing target par
                "terminate, are outside the statement)",
                "with allow_unmet_constraints_first the bounds are judged only from the first value that is inside them"]
 REQUIRED = ["mseg.initial", "mseg.copy_with_update", "mseg.kind.merge", "mseg.kind.split", "mseg.kind.move", "mseg.history_reverified",
-            "c18.walks", "c18.single_row_or_column", "c18.tight_bounds", "c18.initial_blocks", "c18.unmet_first", "c18.initial_blocks_not_meeting_bounds", "c18.exact_block_size"]
+            "c18.walks", "c18.single_row_or_column", "c18.tight_bounds", "c18.initial_blocks", "c18.unmet_first", "c18.initial_blocks_not_meeting_bounds", "c18.exact_block_size", "c18.boards_with_uncovered_cells"]
 
 
 def plan(tier):
@@ -77,6 +77,14 @@ def gen_config(rng):
             other = [[(y, x) for y in range(h) for x in range(w)]]
         extra["initial_blocks"] = other
         extra["_unmet_start"] = True
+    if rng.random() < 0.4 and h * w >= 6 and "initial_blocks" in extra and not extra.get("_unmet_start"):
+        # a board with holes: one room of the target layout is left out of initial_blocks (its cells stay uncovered for ever)
+        ib = extra["initial_blocks"]
+        if len(ib) >= 3:
+            ib.pop(rng.randrange(len(ib)))
+            for key in ("min_num_blocks", "max_num_blocks"):
+                cfg[key] = None
+            extra["_holes"] = True
     if rng.random() < 0.2:
         extra["allow_unmet_constraints_first"] = True
     if rng.random() < 0.15 and h * w >= 4:
@@ -85,11 +93,14 @@ def gen_config(rng):
         cfg.update(min_block_size=size, max_block_size=size, min_num_blocks=None, max_num_blocks=None)
         extra.pop("initial_blocks", None)
         extra.pop("_unmet_start", None)
+        extra.pop("_holes", None)
         tight = True
     return cfg, extra, tight
 
 
 def walk(ctx, st, rng, cfg, extra, steps):
+    if extra.pop("_holes", False):
+        ctx.count("c18.boards_with_uncovered_cells")
     unmet_start = extra.pop("_unmet_start", False)
     if unmet_start:
         ctx.count("c18.initial_blocks_not_meeting_bounds")
